@@ -17,7 +17,7 @@ use crate::sim::stream::{ArmKind, Driver, Faults, Monitor, StreamOpts, snapshot}
 pub const SPEC: PropSpec = PropSpec {
     id: "C07",
     level: "exploration",
-    rule: "E1 histories of 10-60 events on 2-3 uplinks driven through the REAL handle_uplink_packet and handle_housekeeping arms (with or without the initial probing phase): event alphabet {REG_NGP, REG2 full-length with a fresh / the current / a foreign id, REG2 short (2..257 bytes), REG2 on the wrong link, REG3, REG_ERR, unrelated datagram} x link, housekeeping arm (>= 1 s after the previous one), clock advance from {0,1,500,999,1000,1001,2000,3999,4000,4001,5000,5001}; biased sub-scripts produce full cooperative handshakes, late REG2 after the time-out, duplicated replies, REG3 before REG2. REG1 / REG2 frames are read from the receiver-side socket; the manager state through its accessors. Trace specification checked online: R1 one outstanding REG1 (attempt opened by a REG1 on link A closes on a full REG2 on A, any REG_ERR, or the first housekeeping arm >= 4 s later); R2 driver REG1 only while no link is connected; R3 the adopted id changes only in a full-length REG2 arm on the attempt's link and equals bytes 2..258; R4 exactly one broadcast round (one REG2 per link) per adoption, other REG2s only in a link's reconnect step; R5 every REG1 / registration REG2 carries the current id; R6 connected only by REG3 on that link; R7 REG_ERR leaves no pending attempt; R8 time-out closes the attempt at the next housekeeping arm and an idle REG_NGP yields an immediate REG1. Non-trivial = every arm; distinct = abstract manager states (pending?, target?, broadcast?, active==0?, probing?, deadline passed?, #connected) x last event kind. E6 live lane (12 sessions quick / 96 thorough): the PRODUCTION run_sender_with_config (real tokio::select! loop, reader tasks with recvmmsg, instant-ACK forwarder, timers, SIGHUP stream, control socket) runs in a real process (vlive) on loopback sockets and the real clock; the harness plays the SRT client, the SRTLA receiver model, path faults, receiver restarts, SIGHUP reloads and hostile return traffic, observes every datagram on both sides with kernel receive timestamps and uses the sender's own stats pushes (one per housekeeping tick) as its logical clock. Live oracles for this property (wire level): REG1 / REG2 are full-length; no REG1 on a second uplink within 4 s (kernel timestamps) of an unanswered REG1; every REG2 carries the sender's initial id or an id the receiver issued, and never an older one once a newer id was handed over more than 1.5 s earlier; client traffic never arrives from a socket the receiver has not sent a REG3 to; with a cooperative receiver all uplinks register within 12 sender ticks.",
+    rule: "E1 histories of 10-60 events on 2-3 uplinks driven through the REAL handle_uplink_packet and handle_housekeeping arms (with or without the initial probing phase): event alphabet {REG_NGP, REG2 full-length with a fresh / the current / a foreign id, REG2 short (2..257 bytes), REG2 on the wrong link, REG3, REG_ERR, unrelated datagram} x link, housekeeping arm (>= 1 s after the previous one), clock advance from {0,1,500,999,1000,1001,2000,3999,4000,4001,5000,5001}; biased sub-scripts produce full cooperative handshakes, late REG2 after the time-out, duplicated replies, REG3 before REG2. REG1 / REG2 frames are read from the receiver-side socket; the manager state through its accessors. Trace specification checked online: R1 one outstanding REG1 (attempt opened by a REG1 on link A closes on a full REG2 on A, any REG_ERR, or the first housekeeping arm >= 4 s later); R2 driver REG1 only while no link is connected; R3 the adopted id changes only in a full-length REG2 arm on the attempt's link and equals bytes 2..258; R4 exactly one broadcast round (one REG2 per link) per adoption, other REG2s only in a link's reconnect step; R5 every REG1 / registration REG2 carries the current id; R6 connected only by REG3 on that link; R7 REG_ERR leaves no pending attempt; R8 time-out closes the attempt at the next housekeeping arm and an idle REG_NGP yields an immediate REG1. Non-trivial = every arm; distinct = abstract manager states (pending?, target?, broadcast?, active==0?, probing?, deadline passed?, #connected) x last event kind. E6 live lane (12 sessions quick / 96 thorough): the PRODUCTION run_sender_with_config (real tokio::select! loop, reader tasks with recvmmsg, instant-ACK forwarder, timers, SIGHUP stream, control socket) runs in a real process (vlive) on loopback sockets and the real clock; the harness plays the SRT client, the SRTLA receiver model, path faults, receiver restarts, SIGHUP reloads and hostile return traffic, observes every datagram on both sides with kernel receive timestamps and uses the sender's own stats pushes (one per housekeeping tick) as its logical clock. Live oracles for this property (wire level): REG1 / REG2 are full-length; no REG1 on a second uplink within 4 s (kernel timestamps) of an unanswered REG1; every REG2 carries the sender's initial id or an id the receiver issued, and the id never goes back (no REG2 with an older id more than 100 ms after a REG2 with a newer one); client traffic never arrives from a socket the receiver has not sent a REG3 to; with a cooperative receiver all uplinks register within 12 sender ticks.",
     assumptions: &[
         "bounded depth: histories of at most 60 events",
         "probe REG2s (startup) carry the probe id and are outside R5 by construction",
